@@ -3063,8 +3063,18 @@ PPL::Grid::wrap_assign(const Variables_Set& vars,
       }
       if (f_d != 1) {
         // `x' has non-integral values, so add the integrality
-        // congruence for `x'.
+        // congruence for `x' and recompute frequency and value with
+        // respect to the integral values of `x' only.
         add_congruence((x %= 0) / 1);
+        if (!frequency(Linear_Expression(x), f_n, f_d, v_n, v_d)) {
+          if (is_empty()) {
+            return;
+          }
+          continue;
+        }
+        if (f_n == 0) {
+          continue;
+        }
       }
       if (o == OVERFLOW_WRAPS && f_n != wrap_frequency) {
         // We know that `x' is not a constant, so, if overflow wraps,
